@@ -105,7 +105,26 @@ def clause_comparator(prog, rep):
                 # switch written as [0 -> none] otherwise -> some
                 return t["otherwise"]
             return None
-        ev = dtable.Evaluator(f, classify, relation, opaque_switch)
+        def hook(cal, args):
+            # the lookups written as combinators (`.get(id).and_then(|q| q.iter().find(..)).is_some_and(|s| ..)`): the "found" side, as
+            # for the switches above
+            nm = cal.get("name")
+            if nm in ("is_some_and", "and_then", "map", "map_or", "is_none_or") and last_seg(cal.get("self_adt")) == "Option" and args and args[-1][0] == "closure":
+                a0 = args[0]
+                if a0[0] == "variant" and a0[1] == "Option":
+                    if a0[2] == "None":
+                        return None
+                    payload = a0[3][0]
+                else:
+                    payload = ("proj", a0, "Some")
+                r = ev._call_closure(args[-1], [payload])
+                if nm == "map":
+                    return ("variant", "Option", "Some", (r,)) if r is not None else None
+                return r
+            return None
+        ev = dtable.Evaluator(f, classify, relation, opaque_switch, call_hook=hook, prog=prog,
+                              inline=lambda t, *a: t.crate == "mdk_core" and not t.is_test_like() and t.file == f.file and not t.is_closure()
+                              and (t.ret == "bool" or "Ordering" in (t.ret or "")))     # comparison helpers of the same module
         try:
             res = ev.run(dict(env0))
         except dtable.Undecided as e:
